@@ -31,7 +31,7 @@ Theorem evalQ_sound (o : oracle) (env : list Qc) (e : expr) (v : Qc) :
   oracle_exact o -> evalQ o env e = Some v -> evalR (envR env) e = Q2R (this v).
 Proof.
   intro Ho. revert v.
-  induction e as [q | j | a IHa b IHb | a IHa b IHb | a IHa b IHb | a IHa b IHb | a IHa | f a IHa]; intros v; simpl.
+  induction e as [q | j | a IHa b IHb | a IHa b IHb | a IHa b IHb | a IHa b IHb | a IHa | f a IHa | a IHa]; intros v; simpl.
   - intro E; injection E as <-. symmetry; apply Q2R_Q2Qc.
   - intro E. unfold envR. rewrite (nth_error_nth _ _ _ E). reflexivity.
   - destruct (evalQ o env a) as [x|], (evalQ o env b) as [y|]; simpl; try discriminate.
@@ -55,6 +55,7 @@ Proof.
     unfold Qcopp. rewrite Q2R_Q2Qc, Q2R_opp. reflexivity.
   - destruct (evalQ o env a) as [x|]; simpl; try discriminate.
     intro E. rewrite (IHa x) by reflexivity. apply (lookup_exact o f x v Ho E).
+  - apply IHa.
 Qed.
 
 (* on the rational fragment no oracle is consulted *)
@@ -65,6 +66,7 @@ Proof.
     try (apply andb_prop in H as [H1 H2]; rewrite IHe1, IHe2 by assumption; reflexivity).
   - rewrite IHe by assumption. reflexivity.
   - discriminate.
+  - auto.
 Qed.
 
 Corollary evalQ_rational_sound (o : oracle) (env : list Qc) (e : expr) (v : Qc) :
@@ -84,4 +86,5 @@ Proof.
   - apply andb_prop in H as [H1 H2]. simpl. rewrite IHe1, IHe2, H1, H2; auto.
   - auto.
   - discriminate.
+  - auto.
 Qed.
